@@ -389,12 +389,16 @@ Section S.
     rewrite !two_snoc. fold src dst fname tmp f. rewrite R1. simpl w_fs. rewrite R2.
     set (wa := set_fs (set_fs w f1 [EvRename fname tmp]) f2 [EvRename src dst]).
     set (w2i := set_ids wa js new).
-    set (w2 := set_cached w2i js (c_data c)).
+    set (w2c := set_cached w2i js (c_data c)).
+    set (w2 := reset_docs w2c js).
+    assert (Hhs2 : w_hs w2 = w_hs w2c) by (destruct (reset_docs_frame js w2c) as [_ [_ [X _]]]; exact X).
+    assert (HgetH2 : forall k, getH w2 k = getH w2c k) by (intro k; unfold getH; rewrite Hhs2; reflexivity).
     assert (FF : w_fs w2 = w_fs wa /\ w_ss w2 = w_ss wa /\ w_cs w2 = w_cs wa /\ w_tr w2 = w_tr wa
                  /\ length (w_hs w2) = length (w_hs wa)).
     { destruct (set_ids_frame js wa new) as [A1 [A2 [A3 [A4 A5]]]]. fold w2i in A1, A2, A3, A4, A5.
-      destruct (set_cached_frame js w2i (c_data c)) as [B1 [B2 [B3 [B4 B5]]]]. fold w2 in B1, B2, B3, B4, B5.
-      rewrite B1, B2, B3, B4, B5. auto 6. }
+      destruct (set_cached_frame js w2i (c_data c)) as [B1 [B2 [B3 [B4 B5]]]]. fold w2c in B1, B2, B3, B4, B5.
+      destruct (reset_docs_frame js w2c) as [C1 [C2 [C3 [C4 C5]]]]. fold w2 in C1, C2, C3, C4, C5.
+      rewrite C1, C2, C3, C4, C5, B1, B2, B3, B4, B5. auto 6. }
     destruct FF as [F1 [F2 [F3 [F4 F5]]]].
     set (tmp' := dst ++ [SPT]).
     assert (Htmp'2 : get f2 tmp' = Some (File cf)).
@@ -414,11 +418,11 @@ Section S.
       rewrite E. rewrite last_last. apply in_or_app. right. simpl. auto. }
     destruct (Hall hl Hl_in) as [Hl_lt [Hl_cell Hl_s]].
     assert (Hh3 : forall k, h_s (getH w3 k) = h_s (getH w k) /\ h_cell (getH w3 k) = h_cell (getH w k)).
-    { intro k. unfold w3. rewrite getH_set_fs. unfold w2.
+    { intro k. unfold w3. rewrite getH_set_fs, HgetH2. unfold w2c.
       destruct (set_cached_fields js w2i (c_data c) k) as [A' [B' _]]. rewrite A', B'. unfold w2i.
       destruct (set_ids_fields js wa new k) as [A [B _]]. rewrite A, B. auto. }
     assert (Hid3 : forall j, In j js -> h_id (getH w3 j) = new).
-    { intros j Hj. unfold w3. rewrite getH_set_fs. unfold w2.
+    { intros j Hj. unfold w3. rewrite getH_set_fs, HgetH2. unfold w2c.
       destruct (set_cached_fields js w2i (c_data c) j) as [_ [_ [C' _]]]. rewrite C'. unfold w2i.
       apply set_ids_in; auto. destruct (Hall j Hj) as [Hlt _]. exact Hlt. }
     assert (E3 : sp_access frepr w3 hl = (w3, inl ci)).
@@ -504,10 +508,10 @@ Section S.
       rewrite Hq1. apply Hout. exact Hq1.
     - intros j Hj. destruct (Hids j) as [A [B _]]. rewrite A, B. split; [apply Hid3; exact Hj|].
       destruct (Hh3 j) as [C _]. rewrite C. destruct (Hall j Hj) as [_ [_ D]]. exact D.
-    - intros j Hj. destruct (Hids j) as [_ [_ C]]. rewrite C. unfold w3. rewrite getH_set_fs. unfold w2.
+    - intros j Hj. destruct (Hids j) as [_ [_ C]]. rewrite C. unfold w3. rewrite getH_set_fs, HgetH2. unfold w2c.
       apply set_cached_in; auto. destruct (set_ids_frame js wa new) as [_ [_ [_ [_ A5]]]]. fold w2i in A5.
       rewrite A5. simpl. destruct (Hall j Hj) as [Hlt _]. exact Hlt.
-    - intros k Hk. destruct (Hids k) as [_ [_ C]]. rewrite C. unfold w3. rewrite getH_set_fs. unfold w2.
+    - intros k Hk. destruct (Hids k) as [_ [_ C]]. rewrite C. unfold w3. rewrite getH_set_fs, HgetH2. unfold w2c.
       rewrite set_cached_notin by exact Hk. unfold w2i.
       destruct (set_ids_fields js wa new k) as [_ [_ [D _]]]. rewrite D. reflexivity.
   Qed.
